@@ -60,3 +60,11 @@ Theorem C31_fix_trace_shape_partial : forall old new tr tr', fix_trace old new t
   map fst tr' = map fst tr /\ map (fun pe => map fst (snd pe)) tr' = map (fun pe => map fst (snd pe)) tr.
 Proof. exact fix_trace_shape. Qed.
 Print Assumptions C31_fix_trace_shape_partial.
+
+(* Time limits: when the limits observed in the child processes equal the parent's (checked on every run
+   by [check_lcase]), every test case gets the same budget min(maximum, per_statement * size) on both sides. *)
+Theorem C31_budget_agree_partial : forall c, check_lcase c = true ->
+  forall ch size, In ch (l_child c) ->
+  budget (fst ch) (snd ch) size = budget (fst (l_parent c)) (snd (l_parent c)) size.
+Proof. exact budget_agree. Qed.
+Print Assumptions C31_budget_agree_partial.
